@@ -40,9 +40,40 @@ CENTROIDS = [[-1, -1], [1, 1], [2, -2]]
 NEGATION_FREE = lambda f: f[0] not in ("not",) and not (f[0] == "cmp" and f[2] == "<>")  # noqa: E731
 OWN = {"ReturnedDeleted", "ReturnedUnknownRow", "ReturnedFilteredOut", "ReturnedUnindexedUnderFastSearch", "DuplicateRow",
        "MoreThanK", "DistanceWrong", "NotSorted", "WrongCount", "NotNearest", "PostFilterBeyondTopK", "PostFilterLostRow",
-       "QueryFailed", "TableUnreadable", "TableDiverged", "StepFailed"}
+       "QueryFailed", "TableUnreadable", "TableDiverged", "StepFailed", "PurgedRowsStayInIndex"}
 REQUIRED = ["flat", "ivf", "ivf-refine", "ivf-partial", "prefilter", "postfilter", "fast", "with_deleted", "with_unindexed",
             "k_exceeds_eligible", "ties_at_boundary", "index", "optimize", "compact", "delete", "append", "nonempty"]
+
+
+def _pinned():
+    """Regression scenarios kept from earlier runs (appended to the TLC-generated ones): default probing
+    (minimum_nprobes = 1, no maximum) on a table with stable row ids, a deletion file and rows appended after
+    indexing takes the 'fewer matches than k' shortcut of ANNIvfSubIndexExec::late_search."""
+    v = lambda **kw: dict({"use_index": True, "probes": "min1", "refine": 0, "prefilter": True, "fast": False}, **kw)  # noqa: E731
+    vs = [v(), v(fast=True), v(probes="all"), v(probes="all", fast=True), v(refine=1), v(prefilter=False), v(prefilter=False, fast=True),
+          v(probes="all", prefilter=False)]
+    out = []
+    for i, stable in enumerate((True, False)):
+        steps = [{"op": "create", "rows": [[1, 2, -2, 0], [2, 0, 0, 1], [3, -2, 2, 1]], "max_rows_per_file": 3},
+                 {"op": "delete", "keys": [2, 3]},
+                 {"op": "index", "nparts": 2, "centroids": [[-1, -1], [2, -2]]},
+                 {"op": "append", "rows": [[4, 1, 1, -1], [5, 1, 1, 2]], "max_rows_per_file": 3}]
+        for k in (1, 3, 9):
+            steps.append({"op": "query", "q": [-1, 0], "k": k, "filter": ["true"], "hf": False, "variants": [x for x in vs if x["prefilter"]]})
+            steps.append({"op": "query", "q": [-1, 0], "k": k, "filter": ["isnull", "val"], "hf": True, "variants": vs})
+        out.append({"id": 9001 + i, "stable": stable, "metric": "l2", "scalar": False, "steps": steps})
+    # delete + compaction after indexing: with stable row ids the index keeps entries of physically removed rows
+    w = lambda **kw: dict({"use_index": True, "probes": "all", "refine": 0, "prefilter": True, "fast": False}, **kw)  # noqa: E731
+    ws = [w(), w(fast=True), w(refine=1), w(use_index=False), w(probes="min1")]
+    for i, stable in enumerate((True, False)):
+        steps = [{"op": "create", "rows": [[1, 2, -2, 0], [2, 0, 0, 1], [3, -2, 2, 1], [4, 1, 1, -1], [5, 1, 1, 2]], "max_rows_per_file": 1 << 20},
+                 {"op": "index", "nparts": 2, "centroids": [[-1, -1], [2, -2]]},
+                 {"op": "delete", "keys": [4, 5]}, {"op": "compact"}]
+        for k in (2, 9):
+            steps.append({"op": "query", "q": [1, 1], "k": k, "filter": ["true"], "hf": False, "variants": ws})
+        steps.append({"op": "query", "q": [1, 1], "k": 2, "filter": ["cmp", "id", "<=", 4], "hf": True, "variants": ws + [w(prefilter=False)]})
+        out.append({"id": 9003 + i, "stable": stable, "metric": "l2", "scalar": False, "steps": steps})
+    return out
 
 
 def printed(out, tag):
@@ -213,6 +244,15 @@ def run(prop, tier, replay):
         for op in ("optimize", "compact", "append", "delete"):
             stratum = [h for h in useful if after_index(h, op) and h not in picked]
             picked += rnd.sample(stratum, min(len(stratum), nscn // 6))
+        def purge(h):
+            i = next((j for j, s in enumerate(h) if s["op"] == "index"), None)
+            if i is None:
+                return False
+            d = next((j for j in range(i + 1, len(h)) if h[j]["op"] == "delete"), None)
+            return d is not None and any(s["op"] == "compact" for s in h[d + 1:])
+
+        stratum = [h for h in useful if purge(h) and h not in picked]
+        picked += rnd.sample(stratum, min(len(stratum), nscn // 9))
         both = [h for h in useful if after_index(h, "append") and h[-1]["op"] == "optimize" and h not in picked]
         picked += rnd.sample(both, min(len(both), nscn // 12))
         rest = [h for h in useful if h not in picked]
@@ -224,6 +264,7 @@ def run(prop, tier, replay):
             pool, metric = POOLS[(i + vlib.seed()) % len(POOLS)]
             scenarios.append(build_scenario(i + 1, h, pools[pool], metric, qsets[metric], variants, rnd,
                                             nq=2 if quick else 3, nvar=6 if quick else 10))
+        scenarios += _pinned()
         gen_info = {"histories_generated_by_tlc": len(hists), "histories_with_index": len(useful), "histories_replayed": len(picked),
                     "query_universe": {m: len(q) for m, q in qsets.items()}, "variants": {k: len(v) for k, v in variants.items()},
                     "history_steps": steps, "gen_stats": gen["stats"]}
@@ -249,7 +290,10 @@ def run(prop, tier, replay):
             bad_scn.add(scn)
             ev = json.loads(lines[pos - 1])
             result = ev["extra"]["results"][j - 1] if j >= 1 else None
-            sig = {"invariant": clause, "mode": mode[0], "filter": mode[1], "search": mode[2]}
+            if clause == "PurgedRowsStayInIndex":   # one defect, many modes: a mode-independent signature
+                sig = {"invariant": "ExactAnswer", "deviation": "PurgedRowsStayInIndex"}
+            else:
+                sig = {"invariant": clause, "mode": mode[0], "filter": mode[1], "search": mode[2]}
             out.report(sig, f"{clause} in mode {mode}: scenario {scn} step {i} {json.dumps(ev['step'])[:200]} -> "
                             f"{json.dumps(result)[:300] if result else ev['res'] + ' ' + ev.get('text', '')[:200]} table={json.dumps(ev['tbl'])[:300]}",
                        {"scenario": by_id.get(scn), "step": i, "variant": j, "clause": clause, "mode": mode, "event": ev})
@@ -271,6 +315,7 @@ def run(prop, tier, replay):
                                                        sort_keys=True)))
         if len(samples) < 3:
             qs = [json.loads(x) for x in lines if '"op":"query"' in x]
+            qs = [e for e in qs if any(len(r["rows"]) >= 2 for r in e["extra"]["results"])]
             if qs:
                 e = qs[len(qs) // 2]
                 samples.append({"scenario": e["scn"], "step": e["step"], "table_rows": e["tbl"].get("rows"),
